@@ -966,6 +966,12 @@ pub fn check_case(cx: &mut Ctx, case: &Case, mut rep: Option<&mut Report>) -> Ve
         if matches!(case.file, FileSpec::Scr(_)) {
             ks.extend_from_slice(&["af", "bc", "de", "hl", "sp", "pc", "iff", "halt", "skip", "mid"]);
         }
+        // an SZX with a Z80R chunk also describes the hidden MEMPTR and (ZXSTZF_FSET) Q latches
+        if let FileSpec::Szx(sz) = &case.file {
+            if sz.order.contains(&Ck::Z80r) {
+                ks.extend_from_slice(&["q", "mp"]);
+            }
+        }
         for (k, g, w) in diff_obs(&got, md, &ks) {
             if audio_tolerated(&k, &g, &w) {
                 continue;
@@ -974,6 +980,39 @@ pub fn check_case(cx: &mut Ctx, case: &Case, mut rep: Option<&mut Report>) -> Ve
             if !seen.contains(&grp) {
                 seen.push(grp.clone());
                 out.push(Finding { phase: "load", group: grp, kind: Kind::ModelMismatch, got: format!("{}={}", k, g), want: format!("{}={}", k, w) });
+            }
+        }
+    }
+    // "independent of what the machine was doing before": the hidden MEMPTR and Q latches an SZX describes
+    // (Z80R: wMemPtr, ZXSTZF_FSET) must not depend on the receiver — the same file goes into a second
+    // receiver with another past (all flags and both latches inverted)
+    if let FileSpec::Szx(sz) = &case.file {
+        if sz.order.contains(&Ck::Z80r) && out.is_empty() {
+            let mut other_state = case.recv.clone();
+            other_state.w[0] ^= 0x00FF;
+            let mut other = build(&other_state);
+            {
+                let c = other.verif_cpu();
+                let q = c.regs.verif_q();
+                c.regs.verif_set_q(!q, !q);
+                let mp = c.regs.get_mem_ptr();
+                c.regs.set_mem_ptr(!mp);
+            }
+            if load_szx(&mut other, &bytes) == Outcome::Ok {
+                let c = other.verif_cpu();
+                let (q2, mp2) = (format!("{:02x}", c.regs.verif_q()), format!("{:04x}", c.regs.get_mem_ptr()));
+                for (k, v2) in [("q", q2), ("mp", mp2)] {
+                    let v1 = got.get(k).cloned().unwrap_or_default();
+                    if v1 != v2 {
+                        out.push(Finding {
+                            phase: "load",
+                            group: format!("prior-state.{}", k),
+                            kind: Kind::SpecViolated,
+                            got: format!("{}={} after loading into this receiver, {}={} after loading the same file into a receiver whose flags and latches were inverted", k, v1, k, v2),
+                            want: "the same machine whatever the receiver was doing before".into(),
+                        });
+                    }
+                }
             }
         }
     }
